@@ -194,7 +194,7 @@ pub fn out_rows(out: &EngineOutput, opaque: bool, rows: &mut Vec<Vec<u64>>) -> V
           rows.push(msg_row(m));
         }
       }
-      AppAction::PeerError(e) => rows.push(vec![8, err_class(e)]),
+      AppAction::PeerError(e) => rows.push(vec![8, if opaque { 0 } else { err_class(e) }]),
     }
   }
   sent
